@@ -16,7 +16,7 @@ package tape
 //@   at call GoToEndOfTape#1 assert [tape-to-end-unless-overwrite] !overwrite
 
 //@ func (*TapeManager).GetWriter
-//@   property C10
+//@   property C10 also C11
 //@   safety C10
 //@   requires !mutexHeld[addr(m.physicalLock)]
 //@   ensures [held-iff-ok] err == nil ==> mutexHeld[addr(m.physicalLock)]
@@ -27,7 +27,7 @@ package tape
 //@   ensures [marks-overwrote] m.overwrote
 
 //@ func (*TapeManager).Close
-//@   property C10
+//@   property C10 also C11
 //@   safety C10
 //@   requires mutexHeld[addr(m.physicalLock)]
 //@   modifies *, mutexHeld[addr(m.physicalLock)]
@@ -36,7 +36,7 @@ package tape
 // The reader handle is closed whenever the drive is free: Close() runs the closer of whatever was opened last. That
 // invariant is assumed here (the closer is a func-typed field without a spec); everything else is proved.
 //@ func (*TapeManager).GetReader
-//@   property C10
+//@   property C10 also C11
 //@   safety C10
 //@   requires !mutexHeld[addr(m.physicalLock)] && !mutexHeld[addr(m.readerLock)]
 //@   requires [assumed-reader-closed-when-free] m.reader != nil ==> !fileOpen[m.reader]
